@@ -16,9 +16,12 @@
      Statement: if strict execution succeeds then, for EVERY lazy fuel, lazy execution never fails and never
      panics, and when it does not run out of model fuel it returns EXACTLY the strict graph (same node numbering,
      same attribute lists in the same order, same sorted edge vectors) — equality, not just isomorphism.
+   * strict_lazy_adequate_partial — adequacy on the same fragment (Proofs/SLConv.v): some lazy model fuel suffices,
+     and from that fuel on lazy execution IS Ok with exactly the strict graph; so on the fragment "strict succeeds ->
+     lazy succeeds with the same graph" holds without any fuel caveat.
      NOT proved: scoped variables (any use); `(node)` calls, for which only isomorphism can hold; an arbitrary
-     interleaving of the matches of different stanzas as tree-sitter reports them for the merged query; that
-     some lazy fuel suffices (adequacy); the failure direction strict_fail_lazy_fail.
+     interleaving of the matches of different stanzas as tree-sitter reports them for the merged query; the
+     failure direction strict_fail_lazy_fail.
    * building blocks named in DESIGN.md §7 C02 — the two interpreters' copies of capture binding, regex-capture
      lookup and scan-arm selection compute the same thing, and the lazy store's forcing discipline (a thunk is
      forced at most once, every reader sees one value).
@@ -88,6 +91,17 @@ Theorem strict_lazy_same_graph_partial :
     | Err _ | Panic _ => False
     end.
 Proof. exact @strict_lazy_same_graph_lemma. Qed.
+
+(* adequacy: under the same hypotheses some lazy fuel suffices; from that fuel on the lazy run is Ok and returns
+   exactly the strict graph *)
+Theorem strict_lazy_adequate_partial :
+  forall {rx : Type} t fl supplied (regexes : list rx) find call (okfn : ident -> Prop) fuel ms g0 s p,
+  (forall f, okfn f -> pure_fn call f) ->
+  file_ok okfn fl (f_stanzas fl) ms ->
+  run_strict t fl config0 supplied None regexes find call fuel ms g0 = Ok (s, p) ->
+  exists lfuel0, forall lfuel, (lfuel0 <= lfuel)%nat ->
+    exists ls pl, run_lazy t fl config0 supplied None regexes find call lfuel (lmatches_of ms) g0 = Ok (ls, pl) /\ l_graph ls = s_graph s.
+Proof. exact @strict_lazy_adequate_lemma. Qed.
 
 (* every function of the standard library except `node` satisfies the purity hypothesis *)
 Theorem stdlib_graph_pure_partial : forall rxo t f, fn_of_name f <> Some FNode -> pure_fn (stdlib_call rxo t) f.
